@@ -35,7 +35,7 @@ uniform-f32: every one of the 2^23 mantissas (state built with the inverse step 
 (fixed: unit, symmetric, offset, tiny, negative, subnormal, huge; plus seed-derived ranges per class). Non-trivial = (mantissa, range) pair where unit*(hi-lo)+lo is not exactly \
 representable (the f32 computation rounds); each pair is visited once. bernoulli: all 2^23 mantissas x edge probabilities. edge-outputs: ~600 output words structured in all 64 bits (runs of ones from either end, single bits, complements, top-k ones over random low bits) x every edge probability / fixed range. uniform-i32: generated ranges with representable width x chosen low-32-bit patterns \
 (0, -1, MIN, MAX, multiples of the width +-1, random); non-trivial = distinct (range, bits). unit-shapes: random states and states built (GF(2) solve) so that the first 2-3 draws are a chosen point \
-(on/near the unit circle or sphere, axes, corners, near the origin); non-trivial = distinct state. composite: array/vector/point/tuple distributions vs sequential component sampling from a cloned generator; non-trivial = distinct case with >= 2 components.";
+(on/near the unit circle or sphere, axes, corners, next to the inscribed-box corners, near the origin); rejection-runs: states from which 4..22 candidates in a row are rejected (GF(2) solution space of 'all components >= 0.5 in magnitude', filtered); non-trivial = distinct state. composite: array/vector/point/tuple distributions vs sequential component sampling from a cloned generator; non-trivial = distinct case with >= 2 components.";
 
 // ================================================================== GF(2) machinery
 
@@ -1501,9 +1501,113 @@ fn shape_case(seed: u64, idx: u64, b: &Builders) -> (ShapeCase, &'static str) {
             let s = if dim == 2 { b.state2(m[0], m[1], free) } else { b.state3(m[0], m[1], m[2], free) };
             (s.unwrap_or_else(|| random(&mut sm)), if s.is_some() { "built: near the origin" } else { "random (builder unavailable)" })
         }
+        6 => {
+            // next to a corner of the inscribed square/cube (all components +-1/sqrt(dim), each off by up to 3e-4 relative):
+            // the raw draw is just inside or just outside the unit ball in the direction where a box-shaped shortcut
+            // ("all components below 0.5774") and the ball disagree most
+            let h = 1.0 / (dim as f64).sqrt();
+            let m: Vec<u64> = (0..dim).map(|_| {
+                let sgn = if sm.below(2) == 0 { 1.0 } else { -1.0 };
+                mant_of(sgn * h * (1.0 + sm.range(-3e-4, 3e-4)))
+            }).collect();
+            let s = if dim == 2 { b.state2(m[0], m[1], free) } else { b.state3(m[0], m[1], m[2], free) };
+            (s.unwrap_or_else(|| random(&mut sm)), if s.is_some() { "built: next to an inscribed-box corner" } else { "random (builder unavailable)" })
+        }
         _ => (random(&mut sm), "random"),
     };
     (ShapeCase { kind: kind.to_string(), state, how: how.to_string() }, how)
+}
+
+/// States from which the rejection samplers must reject many candidates in a row. A candidate whose components all have
+/// |c| >= 0.5 is outside the disk with probability 0.64 (ball: 0.9); "|c| >= 0.5" is the linear condition bit63 == bit62
+/// on the output word, so the states with that condition on the first dim*n outputs form a GF(2) solution space, which
+/// is sampled and filtered (with the harness's own model of the draw) for runs of at least n rejections.
+fn rejection_run_states(t: &M64, dim: usize, n: usize, want: usize, tries: u64, sm: &mut Sm) -> Vec<(u64, usize)> {
+    let outputs = dim * n;
+    if outputs > 64 {
+        return vec![];
+    }
+    let mut rows = vec![];
+    let mut tp = t.clone();
+    for _ in 0..outputs {
+        let r = tp.rows();
+        rows.push(r[63] ^ r[62]);
+        tp = tp.mul(t);
+    }
+    let sys = LinSys::build(&rows);
+    let nfree = sys.free_cols.len() as u32;
+    let total = if nfree >= 63 { u64::MAX } else { 1u64 << nfree };
+    let mut found = vec![];
+    let mut i = 0u64;
+    while i < tries.min(total) && found.len() < want {
+        let free = if total <= tries { i } else { sm.next() };
+        i += 1;
+        let Some(s) = sys.solve(0, free) else { continue };
+        if s == 0 {
+            continue;
+        }
+        // count the leading rejections with the harness's model of the draw
+        let mut st = s;
+        let mut run = 0usize;
+        loop {
+            let mut l2 = 0.0f64;
+            for _ in 0..dim {
+                st = real_step(st);
+                let c = comp_of(st >> 41);
+                l2 += c * c;
+            }
+            if l2 > 1.0 + 1e-5 && run < 200 {
+                run += 1;
+            } else {
+                break;
+            }
+        }
+        if run >= n {
+            found.push((s, run));
+        }
+    }
+    found
+}
+
+fn run_rejection_runs(cx: &mut Ctx, info: &GenInfo) {
+    if !info.linear {
+        return;
+    }
+    let t0 = Instant::now();
+    let mut obs = Obs::new();
+    obs.sample_cap = 4;
+    let mut sm = Sm(derive_seed(cx.seed, "C19", "rejection-runs", 0));
+    let tries = cx.n(400_000, 6_000_000);
+    let mut first: Option<(ShapeCase, Fail)> = None;
+    let mut longest = [0usize; 2];
+    for (di, (dim, kinds, lens)) in [(2usize, ["disk", "disk-pt"], vec![4usize, 8, 12, 16, 17, 18, 20, 22]), (3usize, ["ball", "ball-pt"], vec![4usize, 8, 12, 16, 17, 18, 20, 21])].into_iter().enumerate() {
+        for n in lens {
+            let states = rejection_run_states(&info.t, dim, n, 24, tries, &mut sm);
+            let key: &'static str = Box::leak(format!("{}: states with >= {n} leading rejections found", kinds[0]).into_boxed_str());
+            obs.class_n(key, states.len() as u64);
+            for (s, run) in states {
+                longest[di] = longest[di].max(run);
+                for kind in kinds {
+                    obs.eval();
+                    obs.nontrivial(hash_of(&(s, kind)));
+                    let c = ShapeCase { kind: kind.to_string(), state: s, how: format!("built: {run} candidates rejected in a row") };
+                    if let Err(f) = check_shape(&c, &mut obs) {
+                        if first.is_none() {
+                            first = Some((c, f));
+                        }
+                    } else if obs.wants_sample() && run >= 16 {
+                        obs.sample(|| json!({"kind": kind, "state": format!("{s:#018x}"), "leading_rejections": run}));
+                    }
+                }
+            }
+        }
+    }
+    obs.max("longest run of rejected candidates exercised (disk)", longest[0] as f64);
+    obs.max("longest run of rejected candidates exercised (ball)", longest[1] as f64);
+    if let Some((c, f)) = first {
+        cx.violation("rejection-runs", &c, &f);
+    }
+    cx.report("rejection-runs", obs, false, t0.elapsed().as_secs_f64(), "states built by GF(2) solve + filtering: many candidates rejected in a row");
 }
 
 fn run_shapes(cx: &mut Ctx, info: &GenInfo) {
@@ -1858,6 +1962,7 @@ pub fn run(cx: &mut Ctx) {
         return;
     }
     run_shapes(cx, &info);
+    run_rejection_runs(cx, &info);
     let n = cx.n(300_000, 10_000_000);
     cx.prop_check("composite", n, comp_case, |c, obs| check_comp(c, obs));
 }
@@ -1873,7 +1978,7 @@ pub fn replay(sub: &str, case: &Value) -> Check {
         "uniform-f32" | "uniform-f32-edge-outputs" => check_float(&de::<FloatCase>(case)?).map(|_| ()),
         "bernoulli" | "bernoulli-edge-outputs" => check_bern(&de::<BernCase>(case)?),
         "uniform-i32" => check_int(&de::<IntCase>(case)?, &mut obs),
-        "unit-shapes" | "unit-zero-draw" => check_shape(&de::<ShapeCase>(case)?, &mut obs),
+        "unit-shapes" | "unit-zero-draw" | "rejection-runs" => check_shape(&de::<ShapeCase>(case)?, &mut obs),
         "composite" => check_comp(&de::<CompCase>(case)?, &mut obs),
         _ => Err(Fail::new("bad-replay", format!("unknown subcheck {sub}"))),
     }
